@@ -29,6 +29,18 @@ Fixpoint upd_fstat (l : list (Z * fstat)) (fo : Z) (fid size : Z) : list (Z * fs
       else let '(r', old) := upd_fstat r fo fid size in ((k, s) :: r', old)
   end.
 
+(* while nums[folder] == 0 and folder < len(nums) - 1: folder += 1 *)
+Fixpoint skip_zero (fuel : nat) (nums : list Z) (folder : Z) : Z :=
+  match fuel with
+  | O => folder
+  | S f => if (folder <? zlen nums - 1) && (0 <=? folder)
+           then match nth_error nums (Z.to_nat folder) with
+                | Some 0 => skip_zero f nums (folder + 1)
+                | _ => folder
+                end
+           else folder
+  end.
+
 Fixpoint assign_loop (multi : bool) (files : list fileent) (fid : Z)
          (nums sizes : list Z) (dd : list bool) (dg : list Z)
          (folder outstreams input : Z) (fstats : list (Z * fstat)) (nfolders : Z) : res (list iplan) :=
@@ -40,6 +52,8 @@ Fixpoint assign_loop (multi : bool) (files : list fileent) (fid : Z)
         do rest <- assign_loop multi r (fid + 1) nums sizes dd dg folder outstreams input fstats nfolders;
         Ok (mkIPlan (e_name e) (kind_of true) (-1) 0 0 None (flat_opt (e_mtime e)) (flat_opt (e_attr e)) fid :: rest)
       else
+        (* a folder without sub-streams is stepped over (only while no file of the current folder was seen) *)
+        let folder := if input =? 0 then skip_zero (length nums) nums folder else folder in
         (* folder = folders[pstat.folder] *)
         if (folder <? 0) || (nfolders <=? folder) then Err EOther else
         do n <- nthZ nums folder;
@@ -47,7 +61,7 @@ Fixpoint assign_loop (multi : bool) (files : list fileent) (fid : Z)
         do d <- nthZ dd outstreams;
         do g <- nthZ dg outstreams;
         let '(fstats', old) := upd_fstat fstats folder fid size in
-        let id := if multi then fs_first old + fs_count old else fid in
+        let id := fid in    (* the entry's own index is kept with it in the per-folder list *)
         let p := mkIPlan (e_name e) (kind_of false) folder (fs_bytes old) size (if d then Some g else None)
                          (flat_opt (e_mtime e)) (flat_opt (e_attr e)) id in
         let input' := input + 1 in
@@ -80,12 +94,15 @@ Definition impl_plans (h : header) : res (list iplan) :=
               | Some sub =>
                   do sizes <- (match s_sizes sub with
                                | Some sz => Ok sz
-                               | None => (* [x.unpacksizes[-1] for x in folders] *)
-                                   (fix go (fs : list folder) : res (list Z) :=
-                                      match fs with
-                                      | [] => Ok []
-                                      | f :: r => do v <- py_index (f_unpacksizes f) (-1); do t <- go r; Ok (v :: t)
-                                      end) folders
+                               | None => (* [x.unpacksizes[-1] for x, n in zip(folders, nums) for _ in range(n)] *)
+                                   (fix go (fs : list folder) (ns : list Z) : res (list Z) :=
+                                      match fs, ns with
+                                      | f :: r, n :: nr =>
+                                          if n <=? 0 then go r nr else
+                                          do v <- py_index (f_unpacksizes f) (-1); do t <- go r nr;
+                                          Ok (repeat v (Z.to_nat n) ++ t)
+                                      | _, _ => Ok []
+                                      end) folders (s_nums sub)
                                end);
                   assign_loop (negb (zlen folders =? 1)) files 0 (s_nums sub) sizes
                               (Header.s_digestsdefined sub) (Header.s_digests sub) 0 0 0 [] (zlen folders)
